@@ -391,3 +391,35 @@ Definition conn_key (outbound : N) (d : dom) : N :=
   let domain_idx := match d with Tcp4 | Tcp6 => conn_dom_tcp | DnsUdp4 | DnsUdp6 => conn_dom_dnsudp | _ => conn_dom_dataudp end in
   let ip_idx := match d with Tcp6 | DnsUdp6 | DataUdp6 => 1 | _ => 0 end in
   outbound * (conn_slots_per_domain * conn_domains) + domain_idx * conn_slots_per_domain + ip_idx.
+
+(* ---- Dialer.check: the attempt loop (for i := 0; i < maxAttempts; i++) and the verdict after it --------- *)
+Inductive attempt_result := RSuccess | RError | RCanceled | RNothing.   (* (true,nil) | (false,err) | (false,context.Canceled) | (false,nil) *)
+(* what CheckFunc returns in attempt i (0-based): a cancelled context makes the dial return context.Canceled *)
+Definition run_attempt (a1 a2 : attempt) (c : cancel_at) (i : nat) : attempt_result :=
+  let cancelled := match c, i with
+                   | CBefore1, _ => true
+                   | CBetween, S _ => true
+                   | CDuring2, S _ => true
+                   | _, _ => false
+                   end in
+  if cancelled then RCanceled
+  else match (match i with O => a1 | _ => a2 end) with AOk => RSuccess | AErr => RError | ASkip => RNothing end.
+(* the loop keeps the last (ok, err); it breaks on success, on context.Canceled and on (false, nil); an actual error retries *)
+Fixpoint probe_loop (a1 a2 : attempt) (c : cancel_at) (i fuel : nat) (last : attempt_result) : attempt_result :=
+  match fuel with
+  | O => last
+  | S f => let r := run_attempt a1 a2 c i in
+           match r with
+           | RError => probe_loop a1 a2 c (S i) f r
+           | _ => r
+           end
+  end.
+Definition model_probe_verdict (a1 a2 : attempt) (c : cancel_at) : verdict :=
+  match probe_loop a1 a2 c 0 (N.to_nat probe_max_attempts) RNothing with
+  | RSuccess => VSuccess      (* markAvailable *)
+  | RError => VFailure        (* err != nil && !errors.Is(err, context.Canceled): markUnavailable *)
+  | RCanceled => VIgnore      (* nothing *)
+  | RNothing => VSkip         (* (false, nil): preserve state *)
+  end.
+Definition probe_event (a1 a2 : attempt) (c : cancel_at) (n : N) (d : dom) (l : latmap) : ev :=
+  verdict_event (model_probe_verdict a1 a2 c) n d l.
